@@ -12,7 +12,14 @@ def eligible(g):
     if re.search(r"(WHITESPACE|COMMENT)\s*=\s*!", t):
         return False
     body = re.sub(r"(?m)^\s*(WHITESPACE|COMMENT)\s*=.*$", "", t)
-    return not re.search(r"\b(WHITESPACE|COMMENT)\b", body)
+    if re.search(r"\b(WHITESPACE|COMMENT)\b", body):
+        return False
+    # ... and their bodies call no user rule (non-silent rules called from inside them show up as tokens: same finding)
+    names = set(re.findall(r"(?m)^\s*(\w+)\s*=", t))
+    for m in re.finditer(r"(?m)^\s*(?:WHITESPACE|COMMENT)\s*=\s*[_@$!]?\{(.*)\}\s*$", t):
+        if names & set(re.findall(r"\b[A-Za-z_]\w*\b", re.sub(r'"(?:[^"\\]|\\.)*"', "", m.group(1)))):
+            return False
+    return True
 
 
 def long_inputs(rnd, alphabet, accepted, n, lo=6, hi=24):
